@@ -164,10 +164,10 @@ Proof.
   induction l1 as [|[k m] l1 IH]; cbn [app find_saved]; auto. destruct (k =? n); auto.
 Qed.
 
-Lemma find_saved_spec w lo n p : -1 <= lo < n ->
+Lemma find_saved_spec w lo n p : lo < n -> 0 <= n ->
   find_saved (savedspec w p lo) n = if n <? Z.of_nat p then Some (nth (Z.to_nat n) w 0) else None.
 Proof.
-  intros H. induction p as [|p IH].
+  intros H H0. induction p as [|p IH].
   - cbn. destruct (n <? 0) eqn:E; [lia | reflexivity].
   - destruct (Z_lt_le_dec lo (Z.of_nat p)) as [Hl|Hl].
     + rewrite savedspec_S by exact Hl. rewrite find_saved_app, IH. cbn [find_saved].
@@ -484,9 +484,9 @@ Section Graph.
     rewrite cursor_upd_neq by lia. rewrite get_upd_eq by lia. rewrite Hlp. eapply Hs; eauto.
   Qed.
 
-  Lemma sync_frame st st' s : get st' s = get st s -> (forall d, cursor st' d s = cursor st d s) ->
+  Lemma sync_frame st st' s : get st' s = get st s -> (forall d, (d < s)%nat -> cursor st' d s = cursor st d s) ->
     sync st s -> sync st' s.
-  Proof. intros Hg Hc Hs deps d E Hd. rewrite Hc, Hg. eapply Hs; eauto. Qed.
+  Proof. intros Hg Hc Hs deps d E Hd. rewrite Hc, Hg by (eapply dep_lt; eauto). eapply Hs; eauto. Qed.
 
   (* ---------------------------------------------------------------------------------------- *)
   (** ** registered readers *)
@@ -622,7 +622,7 @@ Section Graph.
         { apply IHds; auto.
           - intros x Hx. apply Hincl. right; exact Hx.
           - intros s Hs'. destruct (le_lt_dec s d) as [Hle|Hgt]; [auto|].
-            apply (sync_frame st); [apply F1; lia | intros d'; apply F2; [lia | right; lia] | apply Hs; lia].
+            apply (sync_frame st); [apply F1; lia | intros d' _; apply F2; [lia | right; lia] | apply Hs; lia].
           - intros d' Hd'. rewrite HgT, F2; [apply Hc; right; exact Hd' | lia | left; intros ->; contradiction]. }
         clear IHds. unfold gather_post in X. rewrite HgT in X.
         destruct (gather _ rest st1 (acc ++ [m])) as [[st' o] inputs]. destruct o as [m'| | |]; auto.
@@ -645,6 +645,317 @@ Section Graph.
         * exists d. split; [left; reflexivity | lia].
       + exact Hpost.
       + exact Hpost.
+  Qed.
+
+  Lemma get_upd3 st t f1 f2 f3 : (t < length st)%nat ->
+    let st'' := upd (upd (upd st t f1) t f2) t f3 in
+    get st'' t = f3 (f2 (f1 (get st t))) /\ (forall t', t <> t' -> get st'' t' = get st t') /\ length st'' = length st.
+  Proof.
+    intros H. cbn zeta. split; [|split].
+    - rewrite !get_upd_eq; rewrite ?upd_length; auto.
+    - intros t' Hne. now rewrite !get_upd_neq.
+    - now rewrite !upd_length.
+  Qed.
+
+  Lemma raise_dead st T : length st = length g -> (T < length g)%nat ->
+    (forall t, (t < length g)%nat -> winv t (get st t) /\ exhausted (get st t) = false) ->
+    (fired fault st \/ faulty fault T (ppos (get st T)) = true) ->
+    RaisePost (upd st T (fun ts => set_prod ts (ppos ts) true)).
+  Proof.
+    intros Hl HT Hall Hf. split; [now rewrite upd_length|]. split.
+    - intros t Ht. destruct (Nat.eq_dec T t) as [<-|Hne].
+      + rewrite get_upd_eq by lia. destruct (Hall T HT) as [Hw He]. split; [now apply winv_dead | exact He].
+      + rewrite get_upd_neq by exact Hne. auto.
+    - destruct Hf as [(ft & fp & Ef & H1 & H2 & H3)|Hf].
+      + exists ft, fp. split; [exact Ef|]. destruct (Nat.eq_dec T ft) as [<-|Hne].
+        * rewrite get_upd_eq by lia. cbn [set_prod ppos pdead exhausted]. auto.
+        * rewrite get_upd_neq by exact Hne. auto.
+      + unfold faulty in Hf. unfold fired. destruct fault as [[ft fp]|]; [|discriminate].
+        apply andb_true_iff in Hf as [Hf1 Hf2]. apply Nat.eqb_eq in Hf1, Hf2. subst.
+        exists T, (ppos (get st T)). split; [reflexivity|]. rewrite get_upd_eq by lia.
+        cbn [set_prod ppos pdead exhausted]. destruct (Hall T HT) as [_ He]. auto.
+  Qed.
+
+  Lemma Inv_weak st : Inv st -> alive st ->
+    forall t, (t < length g)%nat -> winv t (get st t) /\ exhausted (get st t) = false.
+  Proof. intros [_ HI] Ha t Ht. split; [apply ti_w, HI, Ht | apply Ha, Ht]. Qed.
+
+  (* next(producer) leaves the topic with its position advanced but the message not yet acknowledged,
+     so the result is described relative to the state st' after the dependencies were read *)
+  Definition pn_post (st : state) (T : nat) (res : state * outcome) : Prop :=
+    let p := ppos (get st T) in
+    match res with
+    | (st1, Got m) => exists st', st1 = upd st' T (fun ts => set_prod ts (S (ppos ts)) false) /\
+          Inv st' /\ alive st' /\ get st' T = get st T /\ (forall s, (s < T)%nat -> sync st' s) /\
+          (forall deps d, nth_error g T = Some (Stage deps) -> In d deps -> cursor st' d T = last_prod (get st T) + 1) /\
+          (forall t', (T < t')%nat -> get st' t' = get st t') /\
+          (forall t' s, (T < s)%nat -> cursor st' t' s = cursor st t' s) /\
+          (p < length (W T))%nat /\ m = nth p (W T) 0
+    | (st1, Stop) => exists st', st1 = upd st' T (fun ts => set_prod ts (ppos ts) true) /\
+          Inv st' /\ get st' T = get st T /\ (forall t', (T < t')%nat -> get st' t' = get st t') /\ p = length (W T)
+    | (st1, Raise) => RaisePost st1
+    | (_, OutOfFuel) => False
+    end.
+
+  Lemma producer_next_spec f st T : pull_ok f -> (T <= f)%nat -> (T < length g)%nat ->
+    Inv st -> alive st -> (forall s, (s <= T)%nat -> sync st s) ->
+    pn_post st T (producer_next (fun st d => pull g comb fault f st d T) st T).
+  Proof.
+    intros IH HT HTl HI Ha Hs. unfold producer_next, pn_post.
+    pose proof (proj2 HI T HTl) as Hti. pose proof (wi_pos _ _ (ti_w _ _ Hti)) as Hpos.
+    destruct (nth_error g T) as [[msgs|deps]|] eqn:E.
+    - (* a source *)
+      pose proof (W_src _ _ E) as HW.
+      destruct (faulty fault T (ppos (get st T))) eqn:Ef.
+      + apply raise_dead; auto; [apply HI | now apply Inv_weak].
+      + destruct (nth_error msgs (ppos (get st T))) as [m|] eqn:En.
+        * exists st. split; [reflexivity|]. split; [exact HI|]. split; [exact Ha|]. split; [reflexivity|].
+          split; [intros s Hs'; apply Hs; lia|]. split; [intros deps d; congruence|].
+          split; [reflexivity|]. split; [reflexivity|]. rewrite HW. split.
+          -- apply nth_error_Some. congruence.
+          -- symmetry. now apply nth_error_nth.
+        * exists st. split; [reflexivity|]. split; [exact HI|]. split; [reflexivity|]. split; [reflexivity|].
+          apply nth_error_None in En. rewrite HW in *. lia.
+    - (* a stage *)
+      pose proof (gather_spec f T deps IH HT E deps st [] (incl_refl _) (Hnd _ _ E) HI Ha
+                    (fun s Hs' => Hs s (Nat.lt_le_incl _ _ Hs')) (fun d Hd => Hs T (le_n _) deps d E Hd)) as HG.
+      unfold gather_post in HG.
+      destruct (gather _ deps st []) as [[st' o] inputs]. destruct o as [m'| | |].
+      + destruct HG as (HI' & Ha' & Hs' & G1 & G2 & G3 & G4 & Hin).
+        assert (HgT : get st' T = get st T) by (apply G1; lia).
+        cbn zeta. rewrite HgT.
+        destruct (faulty fault T (ppos (get st T))) eqn:Ef.
+        * apply raise_dead; auto; [apply HI' | now apply Inv_weak | right; now rewrite HgT].
+        * exists st'. split; [reflexivity|]. split; [exact HI'|]. split; [exact Ha'|]. split; [exact HgT|].
+          split; [exact Hs'|]. split.
+          { intros deps' d E' Hd. assert (deps' = deps) by congruence. subst deps'. apply G4, Hd. }
+          split; [intros t' Ht'; apply G1; lia|]. split; [exact G2|].
+          destruct (W_stage_nth T deps (ppos (get st T)) E (fun d Hd => proj2 (G4 d Hd))) as [H1 H2].
+          split; [exact H1|]. rewrite H2, Hin. reflexivity.
+      + destruct HG as (HI' & G1 & d & Hd & Hlen).
+        exists st'. split; [reflexivity|]. split; [exact HI'|]. split; [apply G1; lia|].
+        split; [intros t' Ht'; apply G1; lia|].
+        pose proof (W_stage_len T deps d E Hd). lia.
+      + destruct HG as (Hl & Hall & Hfi). apply raise_dead; auto.
+      + exact HG.
+    - apply nth_error_None in E. lia.
+  Qed.
+
+  Lemma pull_spec : forall f, pull_ok f.
+  Proof.
+    induction f as [|f IH]; intros st T reader Hf (Ht & Hr & HI & Ha & Hs); [lia|].
+    rewrite pull_S. unfold pull_body, pull_post.
+    pose proof (proj2 HI T Ht) as Hti. pose proof (Ha T Ht) as Hex.
+    destruct (tinv_cursor _ _ _ Hti Hr) as [Hc Hm].
+    pose proof (wi_lp _ _ (ti_w _ _ Hti)) as Hlp.
+    pose proof (wi_pos _ _ (ti_w _ _ Hti)) as Hpos.
+    assert (Hlen : length st = length g) by apply HI.
+    fold (cursor st T reader) in *. set (c := cursor st T reader) in *.
+    rewrite Hex. cbn [andb].
+    rewrite (ti_saved _ _ Hti), find_saved_spec by lia.
+    destruct (c + 1 <? Z.of_nat (ppos (get st T))) eqn:En.
+    - (* the message is in the saved mail *)
+      set (st' := upd st T (fun ts => ack_reader ts reader (c + 1))).
+      assert (EqT : get st' T = ack_reader (get st T) reader (c + 1)) by (unfold st'; rewrite get_upd_eq by lia; reflexivity).
+      assert (EqO : forall t', T <> t' -> get st' t' = get st t') by (intros t' Hne; unfold st'; now rewrite get_upd_neq).
+      split; [|split; [|split; [|split; [|split; [|split]]]]].
+      + apply Inv_upd; auto. apply tinv_ack_reader; auto. fold (cursor st T reader). fold c. lia.
+      + intros t Ht'. destruct (Nat.eq_dec T t) as [<-|Hne]; [rewrite EqT; exact Hex | rewrite EqO by exact Hne; auto].
+      + intros s Hs'. destruct (Nat.eq_dec s T) as [->|Hne].
+        * apply sync_upd_self; [lia | reflexivity | apply Hs; lia].
+        * apply sync_upd_above; [lia | apply Hs; lia].
+      + split; [intros t' Ht'; apply EqO; lia|].
+        intros t' s Hs' Hor. destruct (Nat.eq_dec T t') as [<-|Hne].
+        * unfold cursor. rewrite EqT. cbn [ack_reader readers]. apply lookup_set_neq. destruct Hor; congruence.
+        * unfold cursor. now rewrite EqO.
+      + unfold cursor at 1. rewrite EqT. cbn [ack_reader readers]. apply lookup_set_eq.
+      + lia.
+      + reflexivity.
+    - (* a new message has to be produced *)
+      assert (Hcl : c = last_prod (get st T)) by lia.
+      rewrite (ti_dead _ _ Hti), Hex.
+      pose proof (producer_next_spec f st T IH ltac:(lia) Ht HI Ha Hs) as Hpn. unfold pn_post in Hpn.
+      destruct (producer_next _ st T) as [st1 [m| | |]].
+      + destruct Hpn as (st' & -> & HI' & Ha' & HgT & Hs' & HsT & G1 & G2 & Hp & Hmm).
+        assert (Hlen' : (T < length st')%nat) by (rewrite (proj1 HI'); exact Ht).
+        destruct (get_upd3 st' T (fun ts => set_prod ts (S (ppos ts)) false) (fun ts => ack_produced ts m)
+                    (fun ts => ack_reader ts reader (c + 1)) Hlen') as (EqT & EqO & EqL).
+        cbn zeta in EqT, EqO, EqL. cbn beta in EqT. rewrite HgT in EqT.
+        set (st'' := upd (upd (upd st' T _) T _) T _) in *.
+        set (ts2 := ack_produced (set_prod (get st T) (S (ppos (get st T))) false) m) in *.
+        assert (Hts2 : tinv T ts2) by (unfold ts2; rewrite Hmm; eapply tinv_produce; eauto).
+        split; [|split; [|split; [|split; [|split; [|split]]]]].
+        * split; [rewrite EqL; apply HI'|]. intros t Ht'. destruct (Nat.eq_dec T t) as [<-|Hne].
+          -- rewrite EqT. apply (tinv_ack_reader T ts2 reader Hts2 Hr).
+             change (readers ts2) with (readers (get st T)). fold (cursor st T reader). fold c.
+             unfold ts2. cbn [ack_produced set_prod last_prod]. lia.
+          -- rewrite EqO by exact Hne. apply HI', Ht'.
+        * intros t Ht'. destruct (Nat.eq_dec T t) as [<-|Hne]; [rewrite EqT; exact Hex | rewrite EqO by exact Hne; auto].
+        * intros s Hs''. destruct (Nat.eq_dec s T) as [->|Hne].
+          -- intros deps d E Hd. pose proof (dep_lt _ _ _ E Hd).
+             unfold cursor. rewrite EqO by lia. rewrite EqT. fold (cursor st' d T).
+             rewrite (HsT deps d E Hd). reflexivity.
+          -- apply (sync_frame st'); [apply EqO; lia | | apply Hs'; lia].
+             intros d Hd. unfold cursor. rewrite EqO by lia. reflexivity.
+        * split; [intros t' Ht'; rewrite EqO by lia; apply G1; lia|].
+          intros t' s Hs'' Hor. destruct (Nat.eq_dec T t') as [<-|Hne].
+          -- unfold cursor. rewrite EqT. cbn [ack_reader readers ts2 ack_produced set_prod].
+             apply lookup_set_neq. destruct Hor; congruence.
+          -- unfold cursor at 1. rewrite EqO by exact Hne. fold (cursor st' t' s). apply G2, Hs''.
+        * unfold cursor at 1. rewrite EqT. cbn [ack_reader readers]. apply lookup_set_eq.
+        * lia.
+        * rewrite Hmm. f_equal. lia.
+      + destruct Hpn as (st' & -> & HI' & HgT & G1 & Hp).
+        assert (Hlen' : (T < length st')%nat) by (rewrite (proj1 HI'); exact Ht).
+        destruct (get_upd3 st' T (fun ts => set_prod ts (ppos ts) true) ack_exhausted
+                    (fun ts => mark_done ts reader) Hlen') as (EqT & EqO & EqL).
+        cbn zeta in EqT, EqO, EqL. cbn beta in EqT. rewrite HgT in EqT.
+        set (st'' := upd (upd (upd st' T _) T _) T _) in *.
+        split; [|split; [|split; [|split]]].
+        * split; [rewrite EqL; apply HI'|]. intros t Ht'. destruct (Nat.eq_dec T t) as [<-|Hne].
+          -- rewrite EqT. apply tinv_stop; auto.
+          -- rewrite EqO by exact Hne. apply HI', Ht'.
+        * intros t' Ht'. rewrite EqO by lia. apply G1, Ht'.
+        * unfold cursor at 1. rewrite EqT. reflexivity.
+        * lia.
+        * rewrite EqT. reflexivity.
+      + exact Hpn.
+      + exact Hpn.
+  Qed.
+
+  (* ---------------------------------------------------------------------------------------- *)
+  (** ** the initial state *)
+
+  Lemma get_init spies t : length spies = length g -> (t < length g)%nat ->
+    get (init g target spies) t = init_topic g t target (nth t spies false).
+  Proof.
+    intros Hl Ht. unfold get, init.
+    match goal with |- nth t (map ?f ?l) ?d = _ =>
+      rewrite (nth_indep (map f l) d (f (0%nat, false)))
+        by (rewrite map_length, combine_length, seq_length; lia);
+      rewrite (map_nth f l (0%nat, false) t) end.
+    rewrite combine_nth by (rewrite seq_length; lia).
+    rewrite seq_nth by lia. reflexivity.
+  Qed.
+
+  Lemma init_length spies : length spies = length g -> length (init g target spies) = length g.
+  Proof. intros Hl. unfold init. rewrite map_length, combine_length, seq_length. lia. Qed.
+
+  Lemma init_ok spies : length spies = length g -> (forall t, spy0 t = nth t spies false) ->
+    Inv (init g target spies) /\ alive (init g target spies) /\
+    (forall s, sync (init g target spies) s).
+  Proof.
+    intros Hl Hspy. split; [split; [now apply init_length|]|split].
+    - intros t Ht. rewrite get_init by auto.
+      constructor; [constructor|..]; cbn [init_topic last_prod ppos has_spy spy_log spy_closed exhausted readers saved pdead];
+        auto; try reflexivity; try lia.
+      all: try (destruct (nth t spies false); reflexivity).
+      all: try discriminate.
+      all: try (eapply Forall_impl; [|apply (init_readers_m1 t false)]; cbn beta; intros e He; lia).
+    - intros t Ht. rewrite get_init by auto. reflexivity.
+    - intros s deps d E Hd. pose proof (dep_lt _ _ _ E Hd).
+      assert ((s < length g)%nat) by (apply nth_error_Some; congruence).
+      unfold cursor. rewrite !get_init by (auto; lia).
+      rewrite lookup_all_m1 by apply init_readers_m1. reflexivity.
+  Qed.
+
+  (* ---------------------------------------------------------------------------------------- *)
+  (** ** the drain loop: SingleThreadProcessor.iter *)
+
+  Definition kill_ts (ts : tstate) : tstate :=
+    if has_spy ts then mkts (saved ts) (last_prod ts) (readers ts) (done_readers ts)
+                            (exhausted ts) true (spy_log ts) (S (spy_closed ts)) (ppos ts) (pdead ts) else ts.
+
+  Lemma get_map_kill st t : get (map kill_ts st) t = kill_ts (get st t).
+  Proof.
+    unfold get.
+    change (mkts [] (-1) [] [] false false [] 0 0 false) with (kill_ts (mkts [] (-1) [] [] false false [] 0 0 false)) at 1.
+    apply map_nth.
+  Qed.
+
+  (* the state the caller is left with when the exception arrives *)
+  Definition err_post (st : state) : Prop :=
+    length st = length g /\ fired fault st /\
+    forall t, (t < length g)%nat ->
+      let ts := get st t in
+      has_spy ts = spy0 t /\ exhausted ts = false /\ last_prod ts = Z.of_nat (ppos ts) - 1 /\
+      (ppos ts <= length (W t))%nat /\
+      spy_log ts = (if spy0 t then firstn (ppos ts) (W t) else []) /\
+      spy_closed ts = (if spy0 t then 1%nat else 0%nat).
+
+  Lemma err_post_kill st : RaisePost st -> err_post (map kill_ts st).
+  Proof.
+    intros (Hl & Hall & ft & fp & Ef & H1 & H2 & H3). split; [now rewrite map_length|]. split.
+    - exists ft, fp. split; [exact Ef|]. rewrite get_map_kill. unfold kill_ts.
+      destruct (has_spy (get st ft)); cbn [ppos pdead exhausted]; auto.
+    - intros t Ht. cbn zeta. rewrite get_map_kill. destruct (Hall t Ht) as [[W1 W2 W3 W4 W5] He].
+      unfold kill_ts. rewrite <- W3.
+      destruct (has_spy (get st t)) eqn:Es; cbn [has_spy exhausted last_prod ppos spy_log spy_closed]; rewrite ?Es.
+      + rewrite W5, He. cbn [andb]. auto 10.
+      + rewrite W5. cbn [andb]. auto 10.
+  Qed.
+
+  Lemma drain_unfold steps fuel st acc :
+    drain g comb fault (S steps) fuel st target acc =
+    match pull g comb fault fuel st target target with
+    | (st', Got m) => drain g comb fault steps fuel st' target (acc ++ [m])
+    | (st', Stop) => (st', Ok acc)
+    | (st', Raise) => (map kill_ts st', Err 1)
+    | (st', OutOfFuel) => (st', Err 99)
+    end.
+  Proof. reflexivity. Qed.
+
+  Definition drain_post (res : state * res (list Z)) : Prop :=
+    match res with
+    | (st', Ok out) => out = W target /\ Inv st' /\ exhausted (get st' target) = true /\
+                       cursor st' target target = last_prod (get st' target)
+    | (st', Err e) => e = 1 /\ err_post st'
+    end.
+
+  Lemma drain_spec fuel : (target < fuel)%nat -> (target < length g)%nat ->
+    forall steps st acc, Inv st -> alive st -> (forall s, (s <= target)%nat -> sync st s) ->
+      acc = firstn (Z.to_nat (cursor st target target + 1)) (W target) ->
+      (length (W target) - Z.to_nat (cursor st target target + 1) < steps)%nat ->
+      drain_post (drain g comb fault steps fuel st target acc).
+  Proof.
+    intros Hf Ht. induction steps as [|k IH]; intros st acc HI Ha Hs Hacc Hsteps; [lia|].
+    rewrite drain_unfold.
+    assert (Hpre : pull_pre st target target).
+    { split; [exact Ht|]. split; [apply rkeys_target|]. auto. }
+    pose proof (pull_spec fuel st target target Hf Hpre) as Hpost. unfold pull_post in Hpost.
+    destruct (tinv_cursor _ _ _ (proj2 HI target Ht) rkeys_target) as [Hc _].
+    fold (cursor st target target) in Hc. set (c := cursor st target target) in *.
+    destruct (pull g comb fault fuel st target target) as [st' [m| | |]].
+    - destruct Hpost as (HI' & Ha' & Hs' & _ & Hc' & Hidx & Hm).
+      apply IH; auto.
+      + rewrite Hc'. replace (Z.to_nat (c + 1 + 1)) with (S (Z.to_nat (c + 1))) by lia.
+        rewrite firstn_S_nth by exact Hidx. now rewrite Hacc, Hm.
+      + rewrite Hc'. lia.
+    - destruct Hpost as (HI' & _ & Hc' & Hlen & Hex). unfold drain_post.
+      split; [rewrite Hacc, Hlen; apply firstn_all|]. split; [exact HI'|]. split; [exact Hex|].
+      pose proof (proj2 HI' target Ht) as Hti.
+      rewrite Hc', (wi_lp _ _ (ti_w _ _ Hti)), (ti_exh _ _ Hti Hex). lia.
+    - unfold drain_post. split; [reflexivity|]. now apply err_post_kill.
+    - destruct Hpost.
+  Qed.
+
+  Lemma savedspec_empty w p lo : Z.of_nat p - 1 <= lo -> savedspec w p lo = [].
+  Proof.
+    induction p as [|p IH]; intros H; [reflexivity|].
+    unfold savedspec in *. rewrite allmsgs_S, filter_app, IH by lia. cbn [filter fst app].
+    destruct (Z.of_nat p >? lo) eqn:E; [lia | reflexivity].
+  Qed.
+
+  (* with FINAL as its only reader the target topic keeps no mail once FINAL has caught up *)
+  Lemma saved_target_empty st : no_consumers g target -> Inv st -> (target < length g)%nat ->
+    cursor st target target = last_prod (get st target) -> saved (get st target) = [].
+  Proof.
+    intros Hn HI Ht Hc. pose proof (proj2 HI target Ht) as Hti.
+    rewrite (ti_saved _ _ Hti). apply savedspec_empty.
+    pose proof (ti_keys _ _ Hti) as Hk. rewrite (rkeys_only Hn) in Hk.
+    unfold cursor in Hc. destruct (readers (get st target)) as [|[r n] [|e rs]]; try discriminate.
+    cbn [map fst] in Hk. injection Hk as ->. cbn [lookup_reader] in Hc. rewrite Nat.eqb_refl in Hc.
+    cbn [minc min_read]. rewrite Hc, (wi_lp _ _ (ti_w _ _ Hti)). lia.
   Qed.
 
 (*__END__*)
